@@ -43,7 +43,7 @@ def h_inquiry(ctx, what, arg=None, trailing=0):
     elif what == "serial":
         data, exp = R.vpd_serial(ctx, arg, trailing)
     else:
-        data, exp = R.vpd_device_identification(ctx, arg, trailing)
+        data, exp = R.vpd_device_identification(ctx, arg, trailing, concrete_headers=len(arg) > 4)
         for d in exp["designator_descriptors"]:
             R.fix_protocol_identifier(d, d["piv"], d["association"])
     return _run(ctx, "VPD %s %s" % (what, arg), Inquiry.unmarshall_datain, data, exp, evpd=1)
@@ -138,6 +138,12 @@ def obligations(tier):
             add("inquiry/vpd-00/n=%d/trail=%d" % (n, t), "h_inquiry", what="supported", arg=n, trailing=t)
         for n in (0, 1, 8, 20):
             add("inquiry/vpd-80/n=%d/trail=%d" % (n, t), "h_inquiry", what="serial", arg=n, trailing=t)
+    # pages longer than 255 bytes: PAGE LENGTH is a two-byte field
+    add("inquiry/vpd-80/n=300/trail=7", "h_inquiry", what="serial", arg=300, trailing=7)
+    add("inquiry/vpd-00/n=260/trail=7", "h_inquiry", what="supported", arg=260, trailing=7)
+    add("inquiry/vpd-83/13xnaa6/trail=7", "h_inquiry", what="devid", arg=["naa6"] * 13, trailing=7)
+    for t in ():
+        pass
     for k in R.DESIGNATOR_KINDS:
         add("inquiry/vpd-83/%s" % k, "h_inquiry", what="devid", arg=[k])
     add("inquiry/vpd-83/none", "h_inquiry", what="devid", arg=[])
